@@ -328,9 +328,12 @@ def main(argv):
         return 2
     cfg = json.load(open(cfg_path))
     t0 = time.time()
-    workdir = os.path.join(WORK, pid)
+    # one work directory per invocation (several checks of one property may run at once)
+    workdir = os.path.join(WORK, "%s-%d" % (pid, os.getpid()))
     shutil.rmtree(workdir, ignore_errors=True)
     os.makedirs(workdir, exist_ok=True)
+    import atexit
+    atexit.register(lambda: os.environ.get("VERIF_KEEP_WORK") or shutil.rmtree(workdir, ignore_errors=True))
     os.makedirs(EVID, exist_ok=True)
     known = load_known()
 
@@ -388,6 +391,16 @@ def main(argv):
         okd, outd, exe = build_driver(cfg["driver"])
         if not okd:
             problems.append(("driver-build", "harness/cmd/" + cfg["driver"], outd[-3000:]))
+        # private copies: a concurrent check may rebuild the shared binaries while we run
+        try:
+            if okd:
+                shutil.copy2(exe, os.path.join(workdir, "driver"))
+                exe = os.path.join(workdir, "driver")
+            if os.path.exists(oracle_exe):
+                shutil.copy2(oracle_exe, os.path.join(workdir, "oracle"))
+                oracle_exe = os.path.join(workdir, "oracle")
+        except OSError as e:
+            problems.append(("harness", "copy", str(e)))
 
     changed = changed_hashes(facts, cfg.get("hashes", []))
     moved = [k for k in changed_facts(facts) if any(k.startswith(p) for p in cfg.get("fact_prefixes", ["Gotlcp.Facts"]))]
